@@ -104,6 +104,7 @@ def io_trees(r, seed, tier, model_ok):
     distinct = len({(c["text"], tuple(c["stdin"])) for c in cases if c["leaves"] >= 2})
     r.slice("io_trees", len(cases), distinct, [dict(program=c["text"], stdin=c["stdin"]) for c in cases[:2]], dict(outcomes=dict(dist), programs_with_a_shared_action_used_twice_or_more=shared),
             "random bind trees depth <= 5 (incl. shared action values) x 0..4 stdin lines; distinct = distinct (program, stdin) with >= 2 leaves", bad)
+    if r.pid != "C07": return          # the law oracle belongs to C07 only (other properties reuse the bind trees for their own oracles)
     # implementation-only oracle: monad laws up to observation
     laws = []
     for _ in range(N(tier, 300, 5000)):
@@ -111,6 +112,12 @@ def io_trees(r, seed, tier, model_ok):
         lines = [R.choice(["a", "bc", ""]) for _ in range(R.randrange(0, 3))]
         laws.append(("left-identity", f"(({E(v)} ㄱㅅㅎㄴ) {f} ㄱㄹㅎㄷ)", f"({E(v)} {f} ㅎㄴ)", lines))
         laws.append(("right-identity", f"({m} (ㄱㅇㄱ ㄱㅅㅎㄴ ㅎ) ㄱㄹㅎㄷ)", m, lines))
+        laws.append(("right-identity-builtin", f"({m} ㄱㅅ ㄱㄹㅎㄷ)", m, lines))
+        # the returned value is itself an ACTION: by MonadLaws.return_of_action_runs_it `return act` behaves as `act` (first pair: must hold);
+        # the literal law  return act >>= f  ~  f act  (second pair) is the recorded finding F25
+        act = R.choice(["(ㄹㅎㄱ)", f"({E(v)} ㅁㅈㅎㄴ ㅈㄹㅎㄴ)", f"({E(v)} ㄱㅅㅎㄴ)", f"((ㄹㅎㄱ) {f} ㄱㄹㅎㄷ)"])
+        laws.append(("returned-action-is-run", f"(({act} ㄱㅅㅎㄴ) {f} ㄱㄹㅎㄷ)", f"({act} {f} ㄱㄹㅎㄷ)", lines))
+        laws.append(("left-identity-of-action", f"(({act} ㄱㅅㅎㄴ) {f} ㄱㄹㅎㄷ)", f"({act} {f} ㅎㄴ)", lines))
         # associativity: bind (bind m f) g  ~  bind m (\x. bind (f x) g)    (g closed, so no index shift is needed: generated g mentions only its own argument)
         laws.append(("associativity", f"(({m} {f} ㄱㄹㅎㄷ) {g} ㄱㄹㅎㄷ)", f"({m} ((ㄱㅇㄱ {f} ㅎㄴ) {g} ㄱㄹㅎㄷ ㅎ) ㄱㄹㅎㄷ)", lines))
     la = impl_run([dict(text=x[1], stdin=x[3], trace=False) for x in laws]); lb = impl_run([dict(text=x[2], stdin=x[3], trace=False) for x in laws])
